@@ -12,10 +12,10 @@ def I(name):
 # T5 is an array-like type: it refers to the earlier type T1 and to the earlier constant C2 (its length); C2 refers to its type T1.
 # The storages panic on an id that has not been appended yet (HashMap index), so a use before the lift of its declaration is a panic.
 DEPS = {"C2": [("types", "T1")], "T5": [("types", "T1"), ("constants", "C2")]}
-RID = {"OP3": True, "LABEL2": True, "TERM2": False, "T5": True, "PHI2": True, "T1": True, "C2": True, "X3": True, "T4": False, "DEF": True, "LABEL": True, "LINE": False, "PHI": True, "OP1": True, "OP2": False, "TERM": False,
+RID = {"DEF2": True, "LABEL3": True, "TERM3": False, "OP3": True, "LABEL2": True, "TERM2": False, "T5": True, "PHI2": True, "T1": True, "C2": True, "X3": True, "T4": False, "DEF": True, "LABEL": True, "LINE": False, "PHI": True, "OP1": True, "OP2": False, "TERM": False,
        "CAP0": False, "CAP1": False, "MM": False}
-RTYPE = {"OP3": True, "DEF": True, "PHI": True, "PHI2": True, "OP1": True, "C2": True}
-OPCODE = {"OP3": "IAdd", "LABEL2": "Label", "TERM2": "Return", "LINE": "Line", "PHI": "Phi", "PHI2": "Phi", "OP1": "IAdd", "OP2": "Store", "TERM": "Return", "T1": "TypeInt", "T4": "TypeForwardPointer", "T5": "TypeArray", "C2": "ConstantTrue",
+RTYPE = {"DEF2": True, "OP3": True, "DEF": True, "PHI": True, "PHI2": True, "OP1": True, "C2": True}
+OPCODE = {"DEF2": "Function", "LABEL3": "Label", "TERM3": "Return", "OP3": "IAdd", "LABEL2": "Label", "TERM2": "Return", "LINE": "Line", "PHI": "Phi", "PHI2": "Phi", "OP1": "IAdd", "OP2": "Store", "TERM": "Return", "T1": "TypeInt", "T4": "TypeForwardPointer", "T5": "TypeArray", "C2": "ConstantTrue",
           "X3": "Variable", "DEF": "Function", "LABEL": "Label", "CAP0": "Capability", "CAP1": "Capability", "MM": "MemoryModel"}
 
 
@@ -37,7 +37,7 @@ class H(Hooks):
             if name == "types_global_values":
                 return ("list", [I("T1"), I("C2"), I("X3"), I("T4"), I("T5")])
             if name == "functions":
-                return ("list", [("afun",)])
+                return ("list", [("afun",), ("afun", 2)])       # the second function must get its own blocks and start block
             if name == "capabilities":
                 return ("list", [I("CAP0"), I("CAP1")])
             if name == "memory_model":
@@ -52,6 +52,16 @@ class H(Hooks):
             if name == "blocks":
                 # the second block has no phi: it must not inherit the arguments of the first
                 return ("list", [("ablock", 1), ("ablock", 2)])
+        if base == ("afun", 2):
+            if name == "def":
+                return ("some", I("DEF2"))
+            if name == "blocks":
+                return ("list", [("ablock", 3)])
+        if base == ("ablock", 3):
+            if name == "instructions":
+                return ("list", [I("TERM3")])
+            if name == "label":
+                return ("some", I("LABEL3"))
         if base == ("ablock", 1):
             if name == "instructions":
                 return ("list", [I("LINE"), I("PHI"), I("PHI2"), I("OP1"), I("OP2"), I("TERM")])
@@ -158,6 +168,22 @@ def convert(ctx):
     return r, h
 
 
+class _AnyFreshStorage:
+    """the name of the block storage created for the second function (not one of the context's original fields)"""
+
+    def __eq__(self, other):
+        return isinstance(other, str) and other.startswith("storage")
+
+    def __ne__(self, other):
+        return not self.__eq__(other)
+
+    def __repr__(self):
+        return "<the second function's own block storage>"
+
+
+SECOND_BLOCKS = _AnyFreshStorage()
+
+
 def expected():
     tok = lambda st, i: ("token", st, i)
     events = [
@@ -172,5 +198,7 @@ def expected():
         ("append", "ops", ("id", "OP3"), ("lifted_op", "OP3")),
         ("entry.insert", "ops", ("id", "OP3"), ("struct", "OpInfo", {"op": tok("ops", ("id", "OP3")), "ty": ("some", ("info_of", "types", ("rt", "OP3")))})),
         ("append_id", "blocks", ("id", "LABEL2"), ("struct", "Block", {"arguments": ("list", []), "ops": ("list", []), "terminator": ("lifted_terminator", "TERM2")})),
+        ("lift_function", "DEF2"),
+        ("append_id", SECOND_BLOCKS, ("id", "LABEL3"), ("struct", "Block", {"arguments": ("list", []), "ops": ("list", []), "terminator": ("lifted_terminator", "TERM3")})),
     ]
     return events
